@@ -225,12 +225,12 @@ pub const SUB_SIMP: Sub<SimpCase> = Sub {
 
 pub fn run(ctx: &mut Ctx) {
     let t = ctx.tier;
-    ctx.rule = "inputs = pseudo-toroidal covers of all 3D symbols with spherical links (branching {1,2,3,4,6}) up to a size bound, of the literature corpus and of the products; branch-free oriented covers with <= k sheets and finite universal covers of the symbols with branching in {1,..,5}; every input also randomly renumbered; the covers are produced by the crate and validated by the harness before use".into();
+    ctx.rule = "inputs = pseudo-toroidal covers of all 3D symbols with spherical links (branching {1,2,3,4,6}) up to a size bound, of the literature corpus, of the products and of quotients of the cubic / prism tilings by space groups; cubical 3-manifolds of known topology (T^3, S^2 x S^1, S^3, RP^3 and connected sums by tile surgery); branch-free oriented covers with <= k sheets and finite universal covers of the symbols with branching in {1,..,5}; every input also randomly renumbered; the covers are produced by the crate and validated by the harness before use".into();
     ctx.assume("panics of simplify on inputs that are not pseudo-toroidal covers are discards (the property promises 'whenever simplification returns a D-set' there)");
     ctx.assume("nothing is asserted about group invariants when the base is not known-euclidean and the input group is infinite (sphere surgery may change it)");
     crate::props::run_regressions(ctx, "C16");
     ctx.layer("exhaustive");
-    let maxn = t.pick(3, 4);
+    let maxn = t.pick(4, 5);
     let mut cases: Vec<SimpCase> = vec![];
     let sw = |k: usize| vec![((k as u32).wrapping_mul(0x9e37_79b9), (k as u32 + 3).wrapping_mul(0x85eb_ca6b)), ((k as u32).wrapping_mul(0x27d4_eb2f), (k as u32 + 11).wrapping_mul(0x1656_67b1))];
     for n in 1..=maxn {
@@ -249,7 +249,7 @@ pub fn run(ctx: &mut Ctx) {
         }
     }
     // quotients of the cubic tiling by space groups (known euclidean) and cubical manifolds of known topology
-    for (k, c) in crate::props::c17::cubic_cases(t.pick(100, 2000), t.pick(3, 4)).into_iter().enumerate() {
+    for (k, c) in crate::props::c17::cubic_cases(t.pick(400, 4000), t.pick(3, 4)).into_iter().enumerate() {
         cases.push(SimpCase { base: c.ds, source: "ptc".into(), k: 0, pick: 0, swaps: sw(k), known: c.known });
     }
     for (k, c) in crate::props::c17::manifold_cases(t.pick(3, 12), true).into_iter().enumerate() {
@@ -279,7 +279,7 @@ pub fn run(ctx: &mut Ctx) {
     };
     ctx.note(format!("{} of {} candidate (symbol, route) pairs yield an input for simplify", cases.len(), total_candidates));
     let n = cases.len();
-    ctx.run_par(&SUB_SIMP, cases.clone(), Some(&format!("{} cases: pseudo-toroidal covers of all 3D symbols with spherical links (<= {} chambers), of the literature corpus and the products; finite universal covers and branch-free covers of the symbols with branching <= 5 (<= {} chambers)", n, maxn, t.pick(2, 3))));
+    ctx.run_par(&SUB_SIMP, cases.clone(), Some(&format!("{} cases: pseudo-toroidal covers of all 3D symbols with spherical links (<= {} chambers), of the literature corpus, the products and the space-group quotients of the cubic / prism tilings; cubical 3-manifolds of known topology (connected sums by tile surgery) as they are; finite universal covers and branch-free covers of the symbols with branching <= 5 (<= {} chambers)", n, maxn, t.pick(2, 3))));
     ctx.layer("random");
     let pool = Arc::new(cases);
     ctx.run_prop(
